@@ -483,13 +483,37 @@ def fold_known_flags(fn: ast.AST) -> int:
             e.values = vals
         return e
 
-    def block(stmts, known: Dict[str, bool]):
+    class IndexSubst(ast.NodeTransformer):
+        def __init__(self, consts):
+            self.consts = consts
+            self.n = 0
+
+        def visit_Subscript(self, n):
+            self.generic_visit(n)
+            if isinstance(n.ctx, ast.Load) and isinstance(n.slice, ast.Name) and n.slice.id in self.consts:
+                n.slice = ast.copy_location(ast.Constant(value=self.consts[n.slice.id]), n.slice)
+                self.n += 1
+            return n
+
+    def block(stmts, known: Dict[str, bool], consts: Optional[Dict[str, object]] = None):
         out = []
         known = dict(known)
+        consts = {}      # integer / string constants just assigned in this block (used to resolve table[idx])
         for st in stmts:
             if isinstance(st, FUNC):
                 out.append(st)
                 continue
+            if consts and isinstance(st, (ast.Return, ast.Assign, ast.Expr)) and not (stored(st) & set(consts)):
+                tr = IndexSubst(consts)
+                tr.visit(st)
+                count[0] += tr.n
+            for nm in stored(st):
+                consts.pop(nm, None)
+            if not isinstance(st, (ast.Return, ast.Assign, ast.Expr, ast.Pass, ast.AugAssign)):
+                consts.clear()
+            t0 = plain_assign(st)
+            if t0 and t0 not in esc and isinstance(st.value, ast.Constant) and type(st.value.value) in (int, str):
+                consts[t0] = st.value.value
             if isinstance(st, ast.If):
                 st.test = simplify_test(st.test, known)
                 v = value_of(st.test, known)
@@ -1752,8 +1776,23 @@ def unroll_search_loops(fn: ast.AST) -> int:
                     setattr(st, fld, block(getattr(st, fld)))
             for h in getattr(st, "handlers", []) or []:
                 h.body = block(h.body)
+            if isinstance(st, ast.For) and not st.orelse:
+                it = st.iter
+                enum = isinstance(it, ast.Call) and isinstance(it.func, ast.Name) and it.func.id == "enumerate" and len(it.args) == 1 and not it.keywords
+                src = it.args[0] if enum else it
+                if isinstance(src, ast.Name):
+                    k = local_const_len(fn, src.id)
+                    d = next((x.value for x in own_nodes(fn) if plain_assign(x) == src.id), None) if k is not None else None
+                    src = d if isinstance(d, ast.Tuple) else src
+                if isinstance(src, ast.Tuple) and all(const_elt(e) for e in src.elts) and (enum or src is not st.iter):
+                    elts = [ast.Tuple(elts=[ast.Constant(value=i), copy.deepcopy(e)], ctx=ast.Load()) for i, e in enumerate(src.elts)] if enum else [copy.deepcopy(e) for e in src.elts]
+                    early = own_jumps(st.body, (ast.Break,)) or any(isinstance(x, ast.Return) for b in st.body for x in ast.walk(b))
+                    if early and 1 <= len(elts) <= 8:
+                        st.iter = ast.copy_location(ast.Tuple(elts=elts, ctx=ast.Load()), st.iter)
+                        ast.fix_missing_locations(st)
             if isinstance(st, ast.For) and not st.orelse and isinstance(st.iter, ast.Tuple) and 1 <= len(st.iter.elts) <= 8 and all(const_elt(e) for e in st.iter.elts) \
-                    and own_jumps(st.body, (ast.Break,)) and not any(isinstance(x, (ast.Try, ast.With)) and own_jumps([x]) for x in ast.walk(st)):
+                    and (own_jumps(st.body, (ast.Break,)) or any(isinstance(x, ast.Return) for b in st.body for x in ast.walk(b))) \
+                    and not any(isinstance(x, (ast.Try, ast.With)) and own_jumps([x]) for x in ast.walk(st)):
                 names = [n.id for n in ast.walk(st.target) if isinstance(n, ast.Name)]
                 if not any(stores_in(st.body, nm) for nm in names) and sum(1 for b in st.body for _ in ast.walk(b)) <= 120:
                     try:
@@ -2019,6 +2058,52 @@ def dispatch_on_constant(fn: ast.AST) -> int:
                     setattr(st, fld, block(getattr(st, fld)))
             for h in getattr(st, "handlers", []) or []:
                 h.body = block(h.body)
+        # T3: the tree's leaves assign constants to several locals and what follows always leaves: the tail is copied into every leaf
+        for i, st in enumerate(stmts):
+            if not isinstance(st, ast.If) or i + 1 >= len(stmts):
+                continue
+            rest = stmts[i + 1:]
+            assigned = {plain_assign(x) for x in ast.walk(st) if isinstance(x, ast.Assign)}
+            if None in assigned or len(assigned) < 2 or assigned & esc or not _leaves(rest):
+                continue
+
+            def only_consts(ss) -> Optional[int]:
+                n = 0
+                for x in ss:
+                    if plain_assign(x) and const_eval(x.value) is not _NOVALUE and isinstance(x.value, (ast.Constant, ast.UnaryOp)):
+                        continue
+                    if isinstance(x, ast.Pass):
+                        continue
+                    if isinstance(x, ast.If) and not any(isinstance(y, ast.Name) and y.id in assigned for y in ast.walk(x.test)):
+                        a = only_consts(x.body)
+                        b = only_consts(x.orelse)
+                        if a is None or b is None:
+                            return None
+                        n += a + b - 1
+                        continue
+                    return None
+                return n + 1
+            leaves = only_consts([st])
+            size = sum(1 for x in rest for _ in ast.walk(x))
+            reads = any(isinstance(y, ast.Name) and y.id in assigned and isinstance(y.ctx, ast.Load) for x in rest for y in ast.walk(x))
+            if leaves is None or leaves > 9 or size > 70 or not reads or any(isinstance(y, FUNC) for x in rest for y in ast.walk(x)):
+                continue
+
+            def with_tail(ss):
+                out = []
+                for k, x in enumerate(ss):
+                    if isinstance(x, ast.If):
+                        after = ss[k + 1:]
+                        out.append(ast.copy_location(ast.If(test=x.test, body=with_tail(list(x.body) + copy.deepcopy(after)), orelse=with_tail(list(x.orelse) + after)), x))
+                        return out
+                    out.append(x)
+                return out + copy.deepcopy(rest)
+            new = with_tail([st])
+            for x in new:
+                ast.fix_missing_locations(x)
+            stmts[i:] = new
+            count[0] += 1
+            break
         i = 0
         while i + 1 < len(stmts):
             st, S = stmts[i], stmts[i + 1]
@@ -2365,6 +2450,57 @@ def fold_dict_building(fn: ast.AST) -> int:
                     for k, v in pairs:
                         prev.value.keys.append(k)
                         prev.value.values.append(v)
+                    count[0] += 1
+                    continue
+            out.append(st)
+        return out
+    fn.body = block(fn.body)
+    return count[0]
+
+
+def unfold_reduce(fn: ast.AST, resolve) -> int:
+    """F14: `acc = functools.reduce(operator.add, seq, init)`  ->  `acc = init` ; `for x in seq: acc = acc + x`  (what reduce does)."""
+    if not isinstance(fn, (ast.FunctionDef, ast.AsyncFunctionDef)):
+        return 0
+    count = [0]
+
+    def block(stmts):
+        out = []
+        for st in stmts:
+            if isinstance(st, FUNC):
+                out.append(st)
+                continue
+            for fld in ("body", "orelse", "finalbody"):
+                if getattr(st, fld, None):
+                    setattr(st, fld, block(getattr(st, fld)))
+            for h in getattr(st, "handlers", []) or []:
+                h.body = block(h.body)
+            t = plain_assign(st)
+            v = getattr(st, "value", None)
+            if t and isinstance(v, ast.IfExp) and any(isinstance(x, ast.Call) and isinstance(x.func, (ast.Name, ast.Attribute)) and (x.func.id if isinstance(x.func, ast.Name) else x.func.attr) == "reduce"
+                                                      for br in (v.body, v.orelse) for x in [br]):
+                # acc = A if c else reduce(...)   ->   if c: acc = A / else: acc = reduce(...)
+                a = ast.copy_location(ast.Assign(targets=[ast.Name(id=t, ctx=ast.Store())], value=v.body), st)
+                b = ast.copy_location(ast.Assign(targets=[ast.Name(id=t, ctx=ast.Store())], value=v.orelse), st)
+                new = ast.copy_location(ast.If(test=v.test, body=block([a]), orelse=block([b])), st)
+                ast.fix_missing_locations(new)
+                out.append(new)
+                count[0] += 1
+                continue
+            if t and isinstance(v, ast.Call) and len(v.args) == 3 and not v.keywords and isinstance(v.func, (ast.Name, ast.Attribute)) \
+                    and (v.func.id if isinstance(v.func, ast.Name) else v.func.attr) == "reduce" and isinstance(v.args[0], (ast.Name, ast.Attribute)) \
+                    and resolve(v.func) == "functools.reduce" and resolve(v.args[0]) in ("operator.add", "operator.concat"):
+                seq, init = v.args[1], v.args[2]
+                if not any(isinstance(n, ast.Name) and n.id == t for n in ast.walk(seq)):
+                    x = fresh("part")
+                    if not (isinstance(init, ast.Name) and init.id == t):
+                        out.append(ast.copy_location(ast.Assign(targets=[ast.Name(id=t, ctx=ast.Store())], value=init), st))
+                    loop = ast.copy_location(ast.For(target=ast.Name(id=x, ctx=ast.Store()), iter=seq, orelse=[], type_comment=None,
+                                                     body=[ast.Assign(targets=[ast.Name(id=t, ctx=ast.Store())],
+                                                                      value=ast.BinOp(left=ast.Name(id=t, ctx=ast.Load()), op=ast.Add(), right=ast.Name(id=x, ctx=ast.Load())))]), st)
+                    out.append(loop)
+                    for z in out[-2:]:
+                        ast.fix_missing_locations(z)
                     count[0] += 1
                     continue
             out.append(st)
